@@ -30,6 +30,15 @@ def run(tier, replay=None):
         ])
     summ = common.harness_traces("c10", tier, shards=4, env={"TZ": "UTC"}, extra_args=["-x", "layouts=" + layouts], timeout=3600)
     common.validate(v, "Trace_Api", "Trace_Api.cfg", summ, key)
+    # zone pass: valid events with calendar fields on the offset-change days of a zone with DST (existing civil times),
+    # through the handler in a child process running in that zone
+    zs = ["America/New_York", "Europe/London", "America/Santiago", "Australia/Lord_Howe", "Asia/Tehran", "Africa/Casablanca"]
+    pick = zs if tier == "thorough" else [zs[(vflib.seed() + 1) % len(zs)], zs[(vflib.seed() + 4) % len(zs)]]
+    if replay is None:
+        for z in pick:
+            zsumm = common.harness_traces("c10", tier, shards=2, env={"TZ": z}, extra_args=["-x", "layouts=%s;zonepass=1" % layouts], timeout=1800, name="c10-zone-" + z.replace("/", "_"))
+            common.validate(v, "Trace_Api", "Trace_Api.cfg", zsumm, key)
+        v.coverage["zone_pass"] = pick
     trace = summ["extra"]["listener_trace"]
     r = vflib.tlc("Trace_Listener", "Trace_Listener.cfg", workers=1, heap="4g", timeout=1800, deque=True, env={"VF_TRACE": trace})
     if not r.finished or r.errors:
@@ -53,6 +62,6 @@ def run(tier, replay=None):
     v.coverage.setdefault("samples", []).append(summ["extra"]["sample"])
     v.coverage["rule"] = ("real Listen() on loopback: %d scenarios (start/stop cycles) of 1-3 senders x 1-12 datagrams over {valid, valid 0x19, wrong length incl. > 2048, serial 0, wrong code, wrong protocol id, malformed field}; "
                           "each delivered status compared with the specification's decoding of its datagram at delivery and again after the run (Stable); "
-                          "Rig S: the handler fed from one reused, overwritten buffer with every one-byte field over all 256 values. distinct = delivered events" % len(scns))
+                          "Rig S: the handler fed from one reused, overwritten buffer with every one-byte field over all 256 values; zone pass: events with calendar fields on a DST zone's offset-change days, child process in that zone. distinct = delivered events" % len(scns))
     v.coverage["checker_cmd"] = "tlc Listener (MC_Listener: invariants + PROPERTY Terminates; XF_SpawnPerEvent, XF_DropWhenBusy, XF_DoneOnClose); tlc Trace_Listener; tlc Trace_Api (EventDecoded, Stable)"
     return v.finish(write_evidence=replay is None)
